@@ -157,6 +157,7 @@ pub fn alphabet(quick: bool) -> Vec<[f64; 2]> {
     // generic grid and ladders towards 0
     let exps: Vec<i32> = if quick { (-1074..=19).step_by(17).chain(-120..=19).collect() } else { (-1074..=19).collect() };
     v.extend(grid(&exps, quick, 81));
+    v.extend(crate::fx::linear_ladder(1, 1024, 128.0, true));
     for z in [[0.0, 0.0], [-0.0, 0.0], [2f64.powi(20), 0.0], [-2f64.powi(20), 0.0], [2f64.powi(20), 2f64.powi(-40)], [5e-324, 0.0]] {
         v.push(z);
     }
